@@ -5,6 +5,12 @@ Open Scope N_scope.
 
 Record config := mkCfg { cfg_svc_strict : bool; cfg_grp_strict : bool }.
 
+(** Config.SetServiceAuthorization / SetGroupAuthorization: "strict" / "loose" in any
+    letter case, anything else (incl. nothing) is the option's default *)
+Definition parse_auth (default_strict : bool) (raw : str) : bool :=
+  let l := lower raw in
+  if str_eqb l (s "strict") then true else if str_eqb l (s "loose") then false else default_strict.
+
 Definition dataset := list backend.
 
 (** *** rows of a table, including the virtual by-group tables (GetGroupByData) *)
